@@ -79,6 +79,7 @@ def gen_case(seed, idx, tier):
         c.skip = "no-valid-line"
         return c
     nm = partition(rng, cfg)
+    cfg.interleave = rng.random() < 0.5      # definition order: member by member, or all handlers first and arguments interleaved
     names = ["alpha", "beta", "gamma", "delta"][:nm]
     lines = [("valid", uses, None, "")]
     if mode < 6:
@@ -193,10 +194,19 @@ def gen_dupkey(c, rng):
         k1, k2 = "%s,%s" % (s1, l1), "%s,%s" % (s1, "zzz")
     else:
         k1, k2 = "%s,%s" % (s1, l1), "x,xyz"
-    text = lambda sid: ("S %s dupkey\nGF 0\nG %s 0\nAT i0 %s %s\nG %s 0\nAT i1 %s %s\nV %s\nR\n" % (
-        sid, hx("alpha"), hx(k1), hx("d"), hx("beta"), hx(k2), hx("d"), hx("prog")))
+    order = rng.choice(["sequential", "later-handler-first", "three-handlers"])
+    A, B, C = "G %s 0\n" % hx("alpha"), "G %s 0\n" % hx("beta"), "G %s 0\n" % hx("gamma")
+    d1, d2 = "AT i0 %s %s\n" % (hx(k1), hx("d")), "AT i1 %s %s\n" % (hx(k2), hx("d"))
+    if order == "sequential":
+        body = A + d1 + B + d2
+    elif order == "later-handler-first":
+        # both handlers exist, the later created one gets its argument first
+        body = A + B + d1 + A + d2
+    else:
+        body = A + B + C + "AT i2 %s %s\n" % (hx("q,quite-different"), hx("d")) + B + d1 + A + d2
+    text = lambda sid: "S %s dupkey\nGF 0\n%sV %s\nR\n" % (sid, body, hx("prog"))
     sid = c.add("c08", text)
-    c.meta.update(dup=(kind, k1, k2, sid), runs=[], nm=2)
+    c.meta.update(dup=(kind + "/" + order, k1, k2, sid), runs=[], nm=2)
     return c
 
 
@@ -242,6 +252,7 @@ def judge(c, results, rep):
         kind, k1, k2, sid = c.meta["dup"]
         r = results[sid]
         rep.stat("dupkey." + kind)
+        kind = kind.split("/")[0]
         refused = "i1" in r.addfails
         if kind == "distinct":
             if refused or "i0" in r.addfails:
